@@ -8,6 +8,7 @@ let runners : (string * (string -> string list -> string list list -> (string ->
   ("C10", Drv_c10.run);
   ("C02", Drv_c02.run);
   ("C06", Drv_c06.run);
+  ("C16", Drv_c16.run);
 ]
 
 (* runners whose input is the harness OUTPUT ("<id> <line>" per line, model_input = "impl"):
